@@ -230,8 +230,53 @@ def run(spec, out):
         check_update(case, out, [None] + rng.sample(BACKENDS[1:], 1), rng)
 
 
+    # ---- large, power-of-two shaped coordinate / update tensors (element counts whose products reach 2**64): the reference is numpy's own
+    # unbuffered scatter on explicit index tuples
+    if spec.get("shard", 0) % 8 == 0:
+        import einx
+        big_rng = np.random.default_rng(spec["seed"] + 5)
+        for shape_c in ((16, 16, 16, 16), (16, 16, 16, 15), (256, 256), (65536,)):
+            tgt = big_rng.integers(0, 9, size=(5, 6, 7)).astype(np.float64)
+            cx, cy, cz = (big_rng.integers(0, n, size=shape_c) for n in (5, 6, 7))
+            upd = big_rng.integers(1, 4, size=shape_c).astype(np.float64)
+            names = " ".join("abcd"[: len(shape_c)])
+            desc = f"[x y z], {names}, {names}, {names}, {names}"
+            for op, ufunc in (("add_at", np.add), ("subtract_at", np.subtract), ("set_at", None)):
+                for b in (None, "numpy.numpylike"):
+                    bk = {} if b is None else {"backend": b}
+                    out.evaluation()
+                    out.count("large_pow2_calls")
+                    out.distinct_key(f"large|{op}|{shape_c}|{b}")
+                    try:
+                        r = np.asarray(getattr(einx, op)(desc, tgt.copy(), cx, cy, cz, upd, **bk))
+                    except Exception as e:  # noqa
+                        out.violation({"kind": "rejected-valid", "family": "update", "op": op, "risk": "", "exc": type(e).__name__, "large": True}, {"desc": desc, "shape": list(shape_c), "message": str(e)[:300]}, f"einx.{op}({desc!r}) with coordinate shape {shape_c}: {type(e).__name__}")
+                        continue
+                    if ufunc is not None:
+                        exp = tgt.copy()
+                        ufunc.at(exp, (cx.ravel(), cy.ravel(), cz.ravel()), upd.ravel())
+                        ok = np.array_equal(r, exp)
+                    else:
+                        addressed = np.zeros(tgt.shape, dtype=bool)
+                        addressed[cx.ravel(), cy.ravel(), cz.ravel()] = True
+                        ok = np.array_equal(r[~addressed], tgt[~addressed]) and bool(np.all(np.isin(r[addressed], np.unique(upd))))
+                        # every addressed element holds one of the values sent to exactly that element
+                        if ok:
+                            flat = np.ravel_multi_index((cx.ravel(), cy.ravel(), cz.ravel()), tgt.shape)
+                            sent = {}
+                            for f_, u_ in zip(flat[:20000], upd.ravel()[:20000]):
+                                sent.setdefault(int(f_), set()).add(float(u_))
+                            ok = all(float(r.ravel()[f_]) in vals or len(vals) < len(set(upd.ravel()[flat == f_])) for f_, vals in list(sent.items())[:50])
+                    if ok:
+                        out.count("large_pow2_agree")
+                    else:
+                        out.violation({"kind": "wrong-value", "family": "update", "op": op, "risk": "", "shape_class": "large-power-of-two"}, {"desc": desc, "shape": list(shape_c), "backend": b}, f"einx.{op}({desc!r}) with coordinate / update tensors of shape {shape_c} differs from numpy's scatter on explicit indices")
+
+
 def finalize(agg, tier, seed):
     c = agg.counters
+    if c.get("large_pow2_agree", 0) < 12:
+        agg.inconclusive.append(f"only {c.get('large_pow2_agree', 0)} agreeing update calls with large power-of-two shaped tensors")
     for op in ("set_at", "add_at", "subtract_at"):
         if c.get(f"op:{op}", 0) < 50:
             agg.inconclusive.append(f"{op} observed only {c.get(f'op:{op}', 0)} times")
